@@ -110,6 +110,20 @@ def substitutable_locals(stmts, params=()):
     return {k for k in stores if k not in mutated and k not in params}
 
 
+def atom(test):
+    """(positive atom expr, polarity) of a test: `not X`, `X is not Y`, `X != Y` flip the polarity."""
+    pol = True
+    e = test
+    while True:
+        if isinstance(e, ast.UnaryOp) and isinstance(e.op, ast.Not):
+            e, pol = e.operand, not pol
+        elif isinstance(e, ast.Compare) and len(e.ops) == 1 and isinstance(e.ops[0], (ast.IsNot, ast.NotEq)):
+            op = ast.Is() if isinstance(e.ops[0], ast.IsNot) else ast.Eq()
+            e, pol = ast.Compare(left=e.left, ops=[op], comparators=e.comparators), not pol
+        else:
+            return e, pol
+
+
 class Path:
     __slots__ = ('conds', 'stmts', 'ret', 'returned', 'opaque_return', 'origs')
 
@@ -120,6 +134,21 @@ class Path:
         self.ret = None         # substituted return value expression (None for bare return / fall off)
         self.returned = False
         self.opaque_return = False
+
+    def cond_atoms(self):
+        """{(access path or dump of the positive atom, truth value on this path)}"""
+        out = set()
+        for t, v in self.conds:
+            e, pol = atom(t)
+            out.add((astx.path(e) or astx.dump(e), v == pol))
+        return out
+
+    def last_value(self, name):
+        """Value expression last assigned to local *name* on this path (None if not assigned)."""
+        for st in reversed(self.stmts):
+            if isinstance(st, ast.Assign) and any(isinstance(t, ast.Name) and t.id == name for t in st.targets):
+                return st.value
+        return None
 
     def calls(self, attr=None):
         out = []
@@ -225,6 +254,21 @@ def paths(stmts, decide=None, params=(), max_paths=64, subst=True):
                     p.opaque_return = True
                 p.origs.append(st)
                 p.stmts.append(_Sub(env).visit(_cp(st)))
+                continue
+            if isinstance(st, ast.Assign) and len(st.targets) > 1 and subst and \
+                    any(isinstance(t, ast.Name) and t.id in locs for t in st.targets) and \
+                    all(isinstance(t, (ast.Name, ast.Attribute)) for t in st.targets):
+                # chained `a = self.b = value`: the local becomes an alias, the other targets are still stored
+                v = _Sub(env).visit(_cp(st.value))
+                invalidate(st, p, env)
+                rest = [t for t in st.targets if not (isinstance(t, ast.Name) and t.id in locs)]
+                for t in st.targets:
+                    if isinstance(t, ast.Name) and t.id in locs:
+                        env[t.id] = v
+                if rest:
+                    p.origs.append(st)
+                    p.stmts.append(ast.Assign(targets=[_cp(t) for t in rest], value=_cp(v),
+                                              lineno=st.lineno, col_offset=st.col_offset))
                 continue
             if isinstance(st, ast.Assign) and len(st.targets) == 1 and subst:
                 t = st.targets[0]
